@@ -121,62 +121,62 @@ Definition obind {A B} (o : option A) (f : A -> option B) : option B :=
   match o with Some a => f a | None => None end.
 Notation "'let?' x := o 'in' f" := (obind o (fun x => f)) (at level 200, x pattern).
 
-Section Encoder.
-  (* getStructDesc by type name: own tag and elaborated fields; None = error *)
-  Variable T : string -> option (N * flist).
+(* T: getStructDesc by type name: own tag and elaborated fields; None = error.
+   (an argument of the fixpoints rather than a section variable, so that cbn refolds the mutual calls) *)
+Definition tyenv := string -> option (N * flist).
 
-  Fixpoint enc_value (s : sch) (tag : N) (v : val) {struct v} : option bytes :=
+  Fixpoint enc_value (T : tyenv) (s : sch) (tag : N) (v : val) {struct v} : option bytes :=
     match s with
     | SPrim k => enc_prim tag k v
     | SStruct _ fl =>
         match v with
-        | VStruct _ vs => let? body := enc_fields fl vs in Some (wrap tag body)
+        | VStruct _ vs => let? body := enc_fields T fl vs in Some (wrap tag body)
         | _ => None
         end
     | SDyn _ _ _ =>
         match v with
         | VNil => None                                   (* nil value for field *)
         | VStruct ty vs =>
-            let? d := T ty in let? body := enc_fields (snd d) vs in Some (wrap tag body)
+            let? d := T ty in let? body := enc_fields T (snd d) vs in Some (wrap tag body)
         | VPtr (VStruct ty vs) =>
-            let? d := T ty in let? body := enc_fields (snd d) vs in Some (wrap tag body)
+            let? d := T ty in let? body := enc_fields T (snd d) vs in Some (wrap tag body)
         | VPtr v' => enc_dyn_prim tag v'                 (* one dereference; **T, *iface, ... : error *)
         | _ => enc_dyn_prim tag v
         end
     end
-  with enc_fields (fl : flist) (vs : vlist) {struct vs} : option bytes :=
+  with enc_fields (T : tyenv) (fl : flist) (vs : vlist) {struct vs} : option bytes :=
     match fl, vs with
     | FNil, VNone => Some []
     | FCons a s r, VCons v vr =>
-        if (fa_tag a =? ANY_TAG) || fa_skip a then enc_fields r vr
+        if (fa_tag a =? ANY_TAG) || fa_skip a then enc_fields T r vr
         else if fa_slice a then
           match v with
-          | VList es => let? b := enc_elems s (fa_tag a) es in let? rest := enc_fields r vr in Some (b ++ rest)
+          | VList es => let? b := enc_elems T s (fa_tag a) es in let? rest := enc_fields T r vr in Some (b ++ rest)
           | _ => None
           end
-        else if negb (fa_req a) && is_zero s v then enc_fields r vr
-        else let? b := enc_value s (fa_tag a) v in let? rest := enc_fields r vr in Some (b ++ rest)
+        else if negb (fa_req a) && is_zero s v then enc_fields T r vr
+        else let? b := enc_value T s (fa_tag a) v in let? rest := enc_fields T r vr in Some (b ++ rest)
     | _, _ => None
     end
-  with enc_elems (s : sch) (tag : N) (es : vlist) {struct es} : option bytes :=
+  with enc_elems (T : tyenv) (s : sch) (tag : N) (es : vlist) {struct es} : option bytes :=
     match es with
     | VNone => Some []
-    | VCons e er => let? b := enc_value s tag e in let? rest := enc_elems s tag er in Some (b ++ rest)
+    | VCons e er => let? b := enc_value T s tag e in let? rest := enc_elems T s tag er in Some (b ++ rest)
     end.
 
   (* Encoder.Encode(v) *)
-  Definition enc_top (v : val) : option bytes :=
+  Definition enc_top (T : tyenv) (v : val) : option bytes :=
     match v with
     | VStruct ty vs | VPtr (VStruct ty vs) =>
-        let? d := T ty in let? body := enc_fields (snd d) vs in Some (wrap (fst d) body)
+        let? d := T ty in let? body := enc_fields T (snd d) vs in Some (wrap (fst d) body)
     | VTime _ | VPtr (VTime _) => Some (wrap 0 [])   (* time.Time is a struct without annotated fields *)
     | _ => None   (* invalid value, nil pointer, non-struct: error *)
     end.
 
   (* what reaches the destination writer: nothing unless the whole message was built *)
-  Definition enc_to (w : bytes) (v : val) : bytes * bool :=
-    match enc_top v with Some b => (w ++ b, true) | None => (w, false) end.
-End Encoder.
+  Definition enc_to (T : tyenv) (w : bytes) (v : val) : bytes * bool :=
+    match enc_top T v with Some b => (w ++ b, true) | None => (w, false) end.
+
 
 (* ====================================================================== *)
 (* Decoder                                                                *)
@@ -393,31 +393,29 @@ Fixpoint dec_stream (fuel : nat) (ty : string) (tag : N) (fl : flist) (st : dsta
   end.
 
 (* documented normalisations of a round trip: pointer payload -> value payload, skip fields cleared *)
-Section Normalize.
-  Variable T : string -> option (N * flist).
 
-  Fixpoint normalize (s : sch) (v : val) {struct v} : val :=
+  Fixpoint normalize (T : tyenv) (s : sch) (v : val) {struct v} : val :=
     match s, v with
-    | SStruct _ fl, VStruct ty vs => VStruct ty (normalize_fields fl vs)
+    | SStruct _ fl, VStruct ty vs => VStruct ty (normalize_fields T fl vs)
     | SDyn _ _ _, VStruct ty vs =>
-        match T ty with Some d => VStruct ty (normalize_fields (snd d) vs) | None => v end
+        match T ty with Some d => VStruct ty (normalize_fields T (snd d) vs) | None => v end
     | SDyn _ _ _, VPtr (VStruct ty vs) =>
-        match T ty with Some d => VStruct ty (normalize_fields (snd d) vs) | None => VStruct ty vs end
+        match T ty with Some d => VStruct ty (normalize_fields T (snd d) vs) | None => VStruct ty vs end
     | SDyn _ _ _, VPtr v' => v'
     | _, _ => v
     end
-  with normalize_fields (fl : flist) (vs : vlist) {struct vs} : vlist :=
+  with normalize_fields (T : tyenv) (fl : flist) (vs : vlist) {struct vs} : vlist :=
     match fl, vs with
     | FCons a s r, VCons v vr =>
         VCons (if (fa_tag a =? ANY_TAG) || fa_skip a then (if fa_slice a then VList VNone else zero_of s)
-               else if fa_slice a then match v with VList es => VList (normalize_elems s es) | _ => v end
-               else normalize s v)
-              (normalize_fields r vr)
+               else if fa_slice a then match v with VList es => VList (normalize_elems T s es) | _ => v end
+               else normalize T s v)
+              (normalize_fields T r vr)
     | _, _ => vs
     end
-  with normalize_elems (s : sch) (es : vlist) {struct es} : vlist :=
+  with normalize_elems (T : tyenv) (s : sch) (es : vlist) {struct es} : vlist :=
     match es with
     | VNone => VNone
-    | VCons e er => VCons (normalize s e) (normalize_elems s er)
+    | VCons e er => VCons (normalize T s e) (normalize_elems T s er)
     end.
-End Normalize.
+
